@@ -6,7 +6,7 @@ callee's real source when the contract says inline=True); loops are cut at their
 import ast
 import z3
 from . import ty
-from .ty import Int, Bool, NoneT, Str, Opt, Seq, Tup, List, Deque, Dict, Set, Obj, Opaque, Fun
+from .ty import Int, Bool, NoneT, Str, Opt, Seq, Tup, List, Deque, Dict, Set, Obj, Opaque, Fun, Map
 from .core import (MemView, Unknown, Untranslatable, ContractError, Val, PyConst, PyTuple, BoundMethod, FuncRef, Closure, ProviderCall,
                    View, State, Outcome, Obligation, Heap, fresh, none_val, int_val, bool_val, type_heap_keys)
 
@@ -1175,6 +1175,8 @@ class Executor:
     def index(self, base, idx, st, node=None):
         if isinstance(base, Unknown) or isinstance(idx, Unknown):
             return Unknown("index")
+        if isinstance(base, tuple) and base and base[0] == "listlit":
+            base = base[1]
         if isinstance(base, PyTuple):
             z = simp(self.as_int(idx, st).z)
             if z3.is_int_value(z):
@@ -1240,6 +1242,9 @@ class Executor:
             if isinstance(t, Opt):
                 inner = self.coerce(base, t.elt, st)
                 return self.index(inner, idx, st, node)
+            if isinstance(t, Map):
+                k = self.coerce(idx, t.k, st)
+                return Val(t.v, z3.Select(base.z, k.z))
             if isinstance(t, Opaque) and (t.nm, "__getitem__") in self.reg.opaque_methods:
                 ats, rt = self.reg.opaque_methods[(t.nm, "__getitem__")]
                 k = self.coerce(self.guess_tuple(self.iter_value(idx, st), st) if not isinstance(idx, View)
@@ -1294,6 +1299,13 @@ class Executor:
         return bool_val(z), st
 
     def ev_GeneratorExp(self, e, st):
+        if self.cur_contract is not None and getattr(self.cur_contract, "comp_loops", None) and not self.spec:
+            sid = self.site(e)
+            if sid.split("/")[-1].startswith("listcomp#"):
+                k = int(sid.split("#")[-1])
+                if k in self.cur_contract.comp_loops:
+                    yield from self.comp_as_loop(e, st, k)      # executed eagerly as a contracted loop (A4)
+                    return
         yield self.comp_value(e, st), st
 
     def comp_as_loop(self, e, st, k):
